@@ -30,7 +30,7 @@ def run_family(rep, pid, tier, seed):
 
 def replay(case):
     if case.get('layer') != 'buffer':
-        return 'not a buffer-layer replay: %r' % (case,)
+        return 're-run ./check (programs and large operands are regenerated from the seed)'
     par = tuple(bytes.fromhex(p) if isinstance(p, str) and case['op'] in ('new', 'eqbytes', 'hashkey') and i == 0 else p for i, p in enumerate(case['params']))
     c = (case['op'], [tuple(o) for o in case['operands']], par)
     res = run_case(c)
